@@ -142,6 +142,9 @@ def fam_api_text(rng, idx, cfg, lists, fmt):
                           "pseudo": [W.CONFIGS[cfg]["pseudo_names"][ar["pseudo"]]] if ar["pseudo"] else [],
                           "alpha": 7.7e-11, "rtype": ar["rtype"], "idx": 99})
             n += 1
+    if not net.get("shielding") and rng.random() < 0.2:
+        # the shielding table is only reachable through the property (there is no setter): edit it in place
+        steps.append({"s": "shielding_inplace", "values": rng.choice([{"H2": "L96Table"}, {"CO": "V09Table"}, {"N2": "L13Table"}])})
     if rng.random() < 0.25 and not net.get("ode_modifier") and len(names) > 3:
         # narrow the network after the fact; the property promises the same result as constructing it so
         steps.append({"s": "set_allowed", "names": [x for x in names if rng.random() < 0.85] or names})
@@ -188,6 +191,10 @@ def fam_api_krome_custom(rng, idx):
     rng.shuffle(reacs)
     reacs = reacs[: rng.randint(3, 7)]
     rates = ["1.0d-17*sqrt(Tgas)", "3.5d-12*(T32)**(-0.75d0)", "2.0d-9*exp(-5.0d2*invT)"]
+    # the same rates in the other spellings KROME files use (case of the exponent letter, of
+    # function names): texts that differ only in case must not be confused with each other
+    rates += rng.sample(["4.380E-08*(T32)**(-5.000E-01)", "4.380e-08*(T32)**(-5.000e-01)", "6.400E-10", "6.400e-10",
+                         "2.0d-9*EXP(-5.0d2*invT)", "1.0d-17*SQRT(Tgas)"], 3)
     if variant == 0:
         rates += ["1.3d-17*user_crate", "invT2*1.0d-5"]
     if variant == 1:
@@ -590,7 +597,8 @@ def pinned_descriptions():
     steps = [{"s": "new"}]
     for i, (R, P, t) in enumerate([(["H", "H"], ["H2"], 100), (["C", "O"], ["CO"], 100), (["O", "H2"], ["H2O"], 100), (["O", "O"], ["O2"], 100)]):
         steps.append({"s": "add_inst", "R": R, "P": P, "pseudo": [], "alpha": round((i + 1) * 1.3e-10, 13), "rtype": t, "idx": -1})
-    steps += [{"s": "render", "solver": "cvode", "method": "sparse", "device": "cpu", "pattern": True}, {"s": "rm_idx", "i": 0},
+    steps += [{"s": "shielding_inplace", "values": {"H2": "L96Table"}},
+              {"s": "render", "solver": "cvode", "method": "sparse", "device": "cpu", "pattern": True}, {"s": "rm_idx", "i": 0},
               {"s": "render", "solver": "cvode", "method": "sparse", "device": "cpu", "pattern": True, "inplace": True},
               {"s": "to_code", "solver": "odeint", "method": "rosenbrock4", "device": "cpu"}]
     p2 = {"id": "pinned-noindex-0", "family": "pinned-noindex", "entry": "api", "name": "simproj", "files": {},
@@ -689,7 +697,7 @@ def features(d):
             f.add("edit_between_renderings")
     if any(st.get("inplace") for st in d["steps"]):
         f.add("in_place_rerender_after_edit")
-    for k in ("export", "to_code", "cli_render", "touch", "add_str", "set_eb"):
+    for k in ("export", "to_code", "cli_render", "touch", "add_str", "set_eb", "shielding_inplace"):
         if k in kinds:
             f.add("step_" + k)
     if len(d.get("files", {})) >= 2 and d["entry"] == "api" and len({v.split(".")[-1] for v in d["files"]}) >= 2:
